@@ -13,9 +13,9 @@ T("ds", "PtrHeapTrace", "PtrHeapTrace.cfg",
    {"e": "h_getmin", "el": 2}, {"e": "h_deletemin", "el": 2, "notes": [[1, 0]]}, {"e": "h_getmin", "el": 1}],
   lambda t: t[:3] + [{"e": "h_getmin", "el": 1}] + t[4:])
 T("ds", "TimerQueueTrace", "TimerQueueTrace.cfg",
-  [R, {"e": "t_add", "id": 1, "s": 1, "u": 5, "ok": True}, {"e": "t_add", "id": 2, "s": 1, "u": 4, "ok": True},
-   {"e": "t_getptr", "s": 1, "u": 4, "id": 2}, {"e": "t_getptr", "s": 1, "u": 4, "id": 0}],
-  lambda t: t[:3] + [{"e": "t_getptr", "s": 1, "u": 4, "id": 1}])
+  [R, {"e": "t_add", "id": 1, "sh": 0, "s": 1, "u": 5, "ok": True}, {"e": "t_add", "id": 2, "sh": 0, "s": 1, "u": 4, "ok": True},
+   {"e": "t_getptr", "sh": 0, "s": 1, "u": 4, "id": 2}, {"e": "t_getptr", "sh": 0, "s": 1, "u": 4, "id": 0}],
+  lambda t: t[:3] + [{"e": "t_getptr", "sh": 0, "s": 1, "u": 4, "id": 1}])
 
 def fixtures():
     """recorded executions of the real code (tools/mkfixtures.py) with a corruption recipe each"""
